@@ -1475,6 +1475,7 @@ func body(r *vlib.Run) {
 	r.ForTrials("completepath", r.N(60000, 600000), func(trial int, rng *rand.Rand) { completePathTrial(r, trial, rng) })
 	r.ForTrials("client", r.N(100000, 1000000), func(trial int, rng *rand.Rand) { clientTrial(r, trial, rng) })
 	r.ForTrials("scalar", r.N(110000, 1100000), func(trial int, rng *rand.Rand) { scalarTrial(r, trial, rng) })
+	r.ForTrials("concurrent", r.N(64, 256), func(trial int, rng *rand.Rand) { concurrentTrial(r, trial, rng) })
 }
 
 func main() {
